@@ -49,7 +49,46 @@ func (in *Interp) errorsIs(a, b Value) bool {
 	if !ok1 || !ok2 {
 		return false
 	}
-	return x.V == y.V && x.T != nil
+	for depth := 0; depth < 16 && x.T != nil; depth++ {
+		if x.V == y.V {
+			return true
+		}
+		c, ok := x.V.(*Cell)
+		if !ok || c == nil {
+			return false
+		}
+		w, ok := c.Ext.(IfaceVal)
+		if !ok {
+			return false
+		}
+		x = w
+	}
+	return false
+}
+
+// wrapVerbIndex: index of the operand consumed by the first %w verb (-1 if none).
+func wrapVerbIndex(format string) int {
+	idx := 0
+	for i := 0; i < len(format); i++ {
+		if format[i] != '%' {
+			continue
+		}
+		i++
+		for i < len(format) && strings.IndexByte("+-# 0123456789.", format[i]) >= 0 {
+			i++
+		}
+		if i >= len(format) {
+			break
+		}
+		if format[i] == '%' {
+			continue
+		}
+		if format[i] == 'w' {
+			return idx
+		}
+		idx++
+	}
+	return -1
 }
 
 // bigOf returns the Int term of a *big.Int pointer.
@@ -224,7 +263,26 @@ func registerNatives(ex *Explorer) {
 		return in.sprintf(str(a[0]), a[1].(SliceVal), true)
 	}
 	I["fmt.Errorf"] = func(in *Interp, fn *ssa.Function, a []Value) Value {
-		return in.newError(in.sprintf(str(a[0]), a[1].(SliceVal), false))
+		format := str(a[0])
+		args := a[1].(SliceVal)
+		e := in.newError(in.sprintf(strings.ReplaceAll(format, "%w", "%v"), args, false))
+		// %w: remember the wrapped error so that errors.Is / errors.Unwrap see the chain
+		if wi := wrapVerbIndex(format); wi >= 0 && wi < args.Len {
+			if w, ok := in.sget(args, wi).(IfaceVal); ok && w.T != nil {
+				e.V.(*Cell).Ext = w
+			}
+		}
+		return e
+	}
+	I["errors.Unwrap"] = func(in *Interp, fn *ssa.Function, a []Value) Value {
+		if x, ok := a[0].(IfaceVal); ok {
+			if c, ok := x.V.(*Cell); ok && c != nil {
+				if w, ok := c.Ext.(IfaceVal); ok {
+					return w
+				}
+			}
+		}
+		return IfaceVal{}
 	}
 	I["fmt.Sprint"] = func(in *Interp, fn *ssa.Function, a []Value) Value {
 		args := a[0].(SliceVal)
